@@ -84,6 +84,10 @@ T gx;        /* ghost abscissa */
 #define same_window(a, b) ((S_START(a) == S_START(b) && S_END(a) == S_END(b)) || (S_SIZE(a) == 0 && S_SIZE(b) == 0))
 
 
+/* ---- ghost prefix sums for the accumulation loops of the forms: BS_SUM(k) is the sum of the first k terms */
+struct bs_sum_t { T s[BS_CAP + 1]; } BS_SUMS;
+#define BS_SUM(k) (BS_SUMS.s[k])
+
 /* ---- splines --------------------------------------------------------------- */
 static const T BS_ZERO = 0;
 static const T BS_ONE = 1;
@@ -99,6 +103,9 @@ static const T BS_ONE = 1;
 #define XM(g, j)  ((GRID(g, (j) + 1) + GRID(g, j)) / 2)
 #define HW(g, j)  ((GRID(g, (j) + 1) - GRID(g, j)) / 2)
 #define SP_GRID(sp) ((sp)._support._grid)
+/* half width of the interval with relative index r of a window starting at s (the same number as HW(g, s + r); written
+ * with the index arithmetic in this association so that the solvers need no bit-vector rewriting inside nonlinear terms) */
+#define HW_REL(g, s, r) ((GRID(g, (s) + ((r) + 1)) - GRID(g, (s) + (r))) / 2)
 
 /* ---- polynomial evaluation: EVALP_n(c0..c(n-1), u) = sum c_k u^k.  Under BS_OPAQUE_EVALP the definition
  *      is hidden behind an uninterpreted function: a proof that goes through for an arbitrary function holds
@@ -154,5 +161,9 @@ T __CPROVER_uninterpreted_evalp8(T, T, T, T, T, T, T, T, T);
 
 #define SPEC_MAX(a, b) ((a) < (b) ? (b) : (a))
 #define SPEC_MIN(a, b) ((a) < (b) ? (a) : (b))
+/* the window common to two splines: first grid point, end, number of common intervals */
+#define BF_IS(a, b) SPEC_MAX(S_START((a)._support), S_START((b)._support))
+#define BF_IE(a, b) SPEC_MIN(S_END((a)._support), S_END((b)._support))
+#define BF_NI(a, b) (BF_IS(a, b) + 1 < BF_IE(a, b) ? BF_IE(a, b) - BF_IS(a, b) - 1 : (size_t)0)
 
 #endif
